@@ -424,5 +424,74 @@ def check_recursive_walkers(ctx, funcs, rule="TRAV-rec", exempt: typing.Optional
     loops = recursive_child_loops(f)
     if not loops or f.qualname in exempt:
       continue
-    n += check_loop_reached(ctx, f, lambda x: any(x is lp for lp in loops), "the walk descends into the children of every element", rule=rule)
+    n += check_loop_reached(ctx, f, lambda x: any(x is lp for lp in loops), "the walk descends into the children of every element", rule=rule,
+                            allowed_exit=lambda st, _f=f, _l=loops: _empty_lookup_exit(_f, st) or _no_children_exit(_f, st, _l))
   return n
+
+
+def _no_children_exit(f: FuncInfo, ret, loops) -> bool:
+  """`if not p.has_children(): return` / `if len(p) == 0: return` where p is the parameter whose children the walk's loop
+  visits: without children there is nothing to descend into."""
+  if not isinstance(ret, ast.Return) or ret.value is not None:
+    return False
+  par = parent(ret)
+  if not (isinstance(par, ast.If) and len(par.body) == 1 and par.body[0] is ret and not par.orelse):
+    return False
+  t = par.test
+  name = None
+  if isinstance(t, ast.UnaryOp) and isinstance(t.op, ast.Not) and isinstance(t.operand, ast.Call) and isinstance(t.operand.func, ast.Attribute) \
+      and t.operand.func.attr == "has_children" and isinstance(t.operand.func.value, ast.Name) and not t.operand.args:
+    name = t.operand.func.value.id
+  elif isinstance(t, ast.Compare) and len(t.ops) == 1 and isinstance(t.ops[0], ast.Eq) and isinstance(t.comparators[0], ast.Constant) and t.comparators[0].value == 0 \
+      and isinstance(t.left, ast.Call) and unparse(t.left.func) == "len" and len(t.left.args) == 1 and isinstance(t.left.args[0], ast.Name):
+    name = t.left.args[0].id
+  if name is None or name not in f.params:
+    return False
+  if any(isinstance(n, ast.Name) and n.id == name and isinstance(n.ctx, ast.Store) for n in own_nodes(f.node)):
+    return False
+  # the loops that descend iterate over that parameter (directly or through a local copy of its children)
+  copies = {name, f"list({name})", f"iter({name})", f"tuple({name})"}
+  for st in own_nodes(f.node):
+    if isinstance(st, ast.Assign) and len(st.targets) == 1 and isinstance(st.targets[0], ast.Name) and unparse(st.value) in (f"list({name})", f"tuple({name})"):
+      copies.add(st.targets[0].id)
+  return all(isinstance(lp, ast.For) and unparse(lp.iter) in copies for lp in loops)
+
+def _empty_lookup_exit(f: FuncInfo, ret) -> bool:
+  """`if len(p) == 0: return` (or `if not p: return`) at the top of a recursive walker, where p is a parameter that every
+  recursive call passes on unchanged and that the walker otherwise only looks things up in (`x in p`, `p.get(x)`, `p[x]`):
+  with an empty table no look-up can succeed, so leaving at once visits nothing that would have been changed."""
+  if not isinstance(ret, ast.Return) or ret.value is not None:
+    return False
+  par = parent(ret)
+  if not (isinstance(par, ast.If) and len(par.body) == 1 and par.body[0] is ret and not par.orelse and parent(par) is f.node):
+    return False
+  t = par.test
+  name = None
+  if isinstance(t, ast.UnaryOp) and isinstance(t.op, ast.Not) and isinstance(t.operand, ast.Name):
+    name = t.operand.id
+  elif isinstance(t, ast.Compare) and len(t.ops) == 1 and isinstance(t.ops[0], ast.Eq) and isinstance(t.comparators[0], ast.Constant) and t.comparators[0].value == 0 \
+      and isinstance(t.left, ast.Call) and unparse(t.left.func) == "len" and len(t.left.args) == 1 and isinstance(t.left.args[0], ast.Name):
+    name = t.left.args[0].id
+  if name is None or name not in f.params:
+    return False
+  pos = f.params.index(name)
+  for n in own_nodes(f.node):
+    if isinstance(n, ast.Name) and n.id == name:
+      if isinstance(n.ctx, ast.Store):
+        return False
+      up = parent(n)
+      if up is t or up is getattr(t, "left", None) or (isinstance(t, ast.UnaryOp) and up is t):
+        continue
+      if isinstance(up, ast.Compare) and len(up.ops) == 1 and isinstance(up.ops[0], (ast.In, ast.NotIn)) and up.comparators[0] is n:
+        continue
+      if isinstance(up, ast.Subscript) and up.value is n and isinstance(up.ctx, ast.Load):
+        continue
+      if isinstance(up, ast.Attribute) and up.attr == "get" and isinstance(parent(up), ast.Call) and parent(up).func is up:
+        continue
+      if isinstance(up, ast.Call) and unparse(up.func).split(".")[-1] == f.name:
+        if any(a is n and i == pos - (1 if f.cls is not None and not f.is_static and isinstance(up.func, ast.Attribute) else 0) for i, a in enumerate(up.args)):
+          continue
+      if isinstance(up, ast.keyword) and up.arg == name and up.value is n:
+        continue
+      return False
+  return True
